@@ -87,6 +87,8 @@ class Histories:
     def apply(self, s, op):
         kind = op[0]
         if kind == "sysvel":
+            if len(op) > 1:
+                return fsutil.call(s.get_system_velocity_per_frame, time_interval=[op[1]])      # only the frame asked for
             return fsutil.call(s.get_system_velocity_per_frame)
         t = op[1]
         if kind == "shift":
@@ -181,7 +183,7 @@ class Histories:
             if kind == "sysvel":
                 tags.append("sysvel")
                 if ex is None:
-                    for t in range(self.nframes):
+                    for t in (range(self.nframes) if len(op) == 1 else [op[1]]):
                         cur_build[t] = ["bsys", t]
                         build_shift[t] = shifts.get(t, 0)
                         tainted[t] = False
@@ -257,6 +259,12 @@ class Histories:
                         self.apply(s2, op)
                 rep2 = self.report(s2, t)
                 if rep2["forces"] is None:
+                    if b_op is None:
+                        # the live object solved frame t although none of its calls builds a matrix for frame t: some other call
+                        # (for another frame) must have built it
+                        viol.append({"what": "a frame was solved on the live object although no call of the history builds its matrix (a call addressed to another frame did)",
+                                     "detail": {"frame": t, "history": d["ops"]}})
+                        continue
                     raise RuntimeError("fresh replay did not solve frame %d: %s" % (t, solve_ctx[t]))
                 tol = 1e-9 if s_op[0] not in ("slsq",) else 1e-6
                 diff = max(abs(a - b) for a, b in zip(forces, rep2["forces"])) if forces else 0.0
@@ -329,6 +337,8 @@ def ops_for(nframes, builds, solves, sysvel=True):
         ops += [[b, t] for b in builds] + [[s, t] for s in solves] + [["pbuild", t], ["psolve", t], ["shift", t]]
     if sysvel:
         ops.append(["sysvel"])
+        if nframes > 1:
+            ops.append(["sysvel", nframes - 1])      # an explicit list of frames: only those are rebuilt
     return ops
 
 
@@ -455,7 +465,7 @@ def build(tier, seed):
     spelled = ListSystem("defaults-spelled-out", [{"what": w, "noisy": nz, "frame": t, "cells": cells if tier == "quick" or big == 0 else None}
                                                   for w in SPELLED for nz in (False, True) for t in (0, 1) for big in ((0,) if tier == "quick" else (0, 1))], eval_spelled)
     h2 = Histories("two-frames-long", "v5x5", cells, 2, [], 0)
-    alts_q = [["bdef", 0], ["bang", 1], ["sdef", 1], ["svel", 0], ["slin", 0], ["pbuild", 1], ["psolve", 0], ["shift", 0], ["sysvel"]]
+    alts_q = [["bdef", 0], ["bang", 1], ["sdef", 1], ["svel", 0], ["slin", 0], ["pbuild", 1], ["psolve", 0], ["shift", 0], ["sysvel"], ["sysvel", 1]]
     alts_t = alts_q + [["btau", 0], ["bdef", 1], ["sdef", 0], ["svel", 1], ["sfix", 1], ["pbuild", 0], ["psolve", 1], ["shift", 1], ["slsq", 0]]
     if tier == "quick":
         r1 = [[["bang", 0], ["sdef", 0], ["pbuild", 0], ["psolve", 0]], [["bdef", 0], ["sdef", 0], ["bang", 0], ["sdef", 0], ["pbuild", 0]]]
